@@ -10,7 +10,7 @@ DIVS = [1, 1, 2, 3]
 
 
 def cg(r, n, small=False):
-    a = [r.choice([0, 0, 1, -1, 2, -2, 3, -3, 4, -4]) for _ in range(n)]
+    a = _coeffs(r, n)
     b = r.randint(-4, 4)
     m = r.choice(MODULI)
     return "%d %d %s" % (b, m, " ".join(map(str, a)))
@@ -18,7 +18,7 @@ def cg(r, n, small=False):
 
 def gen(r, n, kind=None):
     kind = kind or r.choice("ppqql")
-    a = [r.choice([0, 0, 1, -1, 2, -2, 3, -3, 4, -4]) for _ in range(n)]
+    a = _coeffs(r, n)
     if kind == "l":
         if n == 0:
             kind = "q"
@@ -28,7 +28,62 @@ def gen(r, n, kind=None):
     return "%s %d %s" % (kind, d, " ".join(map(str, a)))
 
 
+SPARSE = False      # set per history: vectors touch 1-2 coordinates only
+SUPPORT = None      # sparse stream: coordinates the vectors of the object being built may touch (others stay virtual)
+
+
+def _coeffs(r, n):
+    if not SPARSE:
+        return [r.choice([0, 0, 1, -1, 2, -2, 3, -3, 4, -4]) for _ in range(n)]
+    a = [0] * n
+    if n:
+        pool = [i for i in SUPPORT if i < n] if SUPPORT else list(range(n))
+        if not pool:
+            pool = list(range(n))
+        for i in r.sample(pool, min(len(pool), r.choice([1, 1, 2]))):
+            a[i] = r.choice([1, -1, 2, -2, 3, 5, 4, -3])
+    return a
+
+
 def new_obj(r, o, n):
+    global SUPPORT
+    SUPPORT = None
+    if SPARSE and n >= 3 and r.random() < 0.7:
+        SUPPORT = sorted(r.sample(range(n), r.choice([2, 3])))
+    try:
+        return _new_obj(r, o, n)
+    finally:
+        SUPPORT = None
+
+
+def gappy_gens(r, n):
+    """Generator system aimed at the case split of Grid::reduce_reduced / simplify over VIRTUAL dimensions:
+    a line (or parameter) with leading coordinate i that also has an entry in column j, whose own row is a
+    parameter, with at least two untouched (virtual) coordinates in between; entries larger than the pivot."""
+    i = r.randint(0, n - 4)
+    j = r.randint(i + 3, n - 1)
+    e = lambda k, c: [c if t == k else 0 for t in range(n)]
+    add = lambda u, v: [x + y for x, y in zip(u, v)]
+    gs = []
+    top = add(e(i, r.choice([1, 1, 2, -1])), e(j, r.choice([2, 3, 4, 5, 7, -2, -5])))
+    gs.append("%s %d %s" % (r.choice(["l", "l", "q"]), 1, " ".join(map(str, top))))
+    gs.append("q %d %s" % (r.choice([1, 1, 2]), " ".join(map(str, e(j, r.choice([2, 3, 4]))))))
+    if r.random() < 0.6:
+        gs.append("q %d %s" % (r.choice([1, 2, 3]), " ".join(map(str, e(i + 1, r.choice([1, 2, 3]))))))
+    if r.random() < 0.3:
+        gs.append("l 1 %s" % " ".join(map(str, e(r.choice([i + 2, j - 1]), 1))))
+    pt = [0] * n
+    if r.random() < 0.5:
+        pt[r.randrange(n)] = r.choice([1, -1, 2])
+    gs.append("p %d %s" % (r.choice(DIVS), " ".join(map(str, pt))))
+    r.shuffle(gs)
+    return gs
+
+
+def _new_obj(r, o, n):
+    if SPARSE and n >= 4 and r.random() < 0.3:
+        gs = gappy_gens(r, n)
+        return "new %d dim %d gens %d %s" % (o, n, len(gs), " ".join(gs))
     k = r.random()
     if k < 0.08:
         return "new %d dim %d universe" % (o, n)
@@ -46,18 +101,26 @@ def new_obj(r, o, n):
 OPS = [("addcg", 10), ("refcg", 2), ("addcgs", 4), ("addgen", 10), ("addgens", 3), ("inters", 7), ("join", 7),
        ("image", 7), ("preimage", 7), ("embed", 2), ("project", 2), ("rmhigher", 3), ("copy", 4), ("assign", 3),
        ("swap", 1), ("closure", 1), ("new", 3),
-       ("obs", 14), ("q", 10), ("q2", 12), ("rel", 10)]
+       ("unconstrain", 2), ("telapse", 3), ("diff", 5), ("gimage", 4), ("gpreimage", 4),
+       ("obs", 14), ("q", 10), ("q2", 12), ("rel", 10), ("freq", 9), ("relgen", 5)]
 
 
-def history(r, cid, maxdim=3, nsteps=None):
-    n0 = r.choice([0, 1, 1, 2, 2, 2, 3, 3][: (2 + 2 * maxdim)]) if maxdim < 3 else r.choice([0, 1, 1, 2, 2, 2, 3, 3])
-    n0 = min(n0, maxdim)
+def history(r, cid, maxdim=3, nsteps=None, sparse=False):
+    """sparse=True: the higher-dimensional stream (dimension 4..maxdim, every vector touches 1-2 coordinates, so
+    that several dimensions are virtual in the reduced forms)."""
+    global SPARSE
+    SPARSE = sparse
+    if sparse:
+        n0 = r.randint(4, maxdim)
+    else:
+        n0 = r.choice([0, 1, 1, 2, 2, 2, 3, 3][: (2 + 2 * maxdim)]) if maxdim < 3 else r.choice([0, 1, 1, 2, 2, 2, 3, 3])
+        n0 = min(n0, maxdim)
     dims = [0, 0, 0, 0]
     lines = ["case %s" % cid]
     for o in range(4):
         lines.append(new_obj(r, o, n0))
         dims[o] = n0
-    steps = nsteps or r.randint(4, 12)
+    steps = nsteps or (r.randint(3, 8) if sparse else r.randint(4, 12))
     names = [x for x, _ in OPS]
     weights = [w for _, w in OPS]
     for _ in range(steps):
@@ -75,12 +138,12 @@ def history(r, cid, maxdim=3, nsteps=None):
         elif op == "addgens":
             k = r.randint(0, 3)
             lines.append("addgens %d %d %s" % (o, k, " ".join(gen(r, n) for _ in range(k))))
-        elif op in ("inters", "join"):
+        elif op in ("inters", "join", "diff"):
             lines.append("%s %d %d" % (op, o, r.choice(same)))
         elif op in ("image", "preimage"):
             if n == 0:
                 continue
-            a = [r.choice([0, 0, 1, -1, 2, -2]) for _ in range(n)]
+            a = [r.choice([0, 0, 1, -1, 2, -2]) for _ in range(n)] if not sparse else [x % 3 - 1 if x else 0 for x in _coeffs(r, n)]
             lines.append("%s %d %d %d %d %s" % (op, o, r.randrange(n), r.randint(-3, 3),
                                                 r.choice([1, 1, 1, -1, 2, 3, -2, 0] if r.random() < 0.3 else [1, 1, -1, 2, 3]),
                                                 " ".join(map(str, a))))
@@ -112,6 +175,26 @@ def history(r, cid, maxdim=3, nsteps=None):
             lines.append("q %d %s" % (o, r.choice(["is_empty", "is_universe", "is_discrete", "is_bounded"])))
         elif op == "q2":
             lines.append("q2 %d %d %s" % (o, r.choice(same), r.choice(["contains", "strictly_contains", "disjoint", "equals"])))
+        elif op == "unconstrain":
+            if n == 0:
+                continue
+            lines.append("unconstrain %d %d" % (o, r.randrange(n)))
+        elif op == "telapse":
+            lines.append("telapse %d %d" % (o, r.choice(same)))
+        elif op in ("gimage", "gpreimage"):
+            if n == 0:
+                continue
+            a = [r.choice([0, 0, 1, -1, 2, -2]) for _ in range(n)] if not sparse else [x % 3 - 1 if x else 0 for x in _coeffs(r, n)]
+            rel = r.choice(["eq"] * 6 + ["ge", "lt"])
+            m = r.choice([0, 1, 2, 3, -2, 4]) if rel == "eq" else 0
+            lines.append("%s %d %d %s %d %d %d %s" % (op, o, r.randrange(n), rel, r.randint(-3, 3),
+                                                      r.choice([1, 1, -1, 2, 3, 0] if r.random() < 0.2 else [1, 1, -1, 2, 3]),
+                                                      m, " ".join(map(str, a))))
+        elif op == "freq":
+            a = _coeffs(r, n) if r.random() < 0.8 else [0] * n
+            lines.append("freq %d %d %s" % (o, r.choice([0, 0, 1, -2, 3, 5]), " ".join(map(str, a))))
+        elif op == "relgen":
+            lines.append("relgen %d %s" % (o, gen(r, n)))
         elif op == "rel":
             lines.append("rel %d %s" % (o, cg(r, n)))
     lines.append("end")
